@@ -295,27 +295,54 @@ fn explore_hasher_on(clauses: &[Clause], max_levels: usize, rep: &mut Report, va
     let mut frontier = vec![init];
     rep.states += 1;
     // oracle on one state
+    let decidable: Vec<usize> = vars.map(|v| v.to_vec()).unwrap_or_else(|| (0..n).collect());
     let observe = |s: &HState, by_res: &mut HashMap<_, _>, by_hash: &mut HashMap<_, _>| -> Option<String> {
         let a = s.levels.last().unwrap();
+        // the partial assignment handed to hash() may say more than what was decided: at states
+        // with at most two levels every extension of the decided assignment by further literals
+        // of the decidable variables is hashed too (the clauses they satisfy are still in the
+        // hasher's frame and must be skipped by hash() itself)
+        let mut models: Vec<Vec<Option<bool>>> = vec![a.clone()];
+        if s.levels.len() <= 2 {
+            let free: Vec<usize> = decidable.iter().cloned().filter(|&v| a[v].is_none()).collect();
+            if free.len() <= 4 {
+                for code in 1..3usize.pow(free.len() as u32) {
+                    let mut m = a.clone();
+                    let mut c = code;
+                    for &v in free.iter() {
+                        m[v] = match c % 3 {
+                            0 => None,
+                            1 => Some(true),
+                            _ => Some(false),
+                        };
+                        c /= 3;
+                    }
+                    models.push(m);
+                }
+            }
+        }
+        for (mi, a) in models.iter().enumerate() {
         let hv = match guarded(|| s.h.hash(&model_of(a))) {
             Ok(h) => h,
             Err(p) => return Some(format!("hash panicked: {}", p)),
         };
+        let tag = if mi == 0 { String::new() } else { format!(" (model {:?}, an extension of the decided assignment)", a) };
         if let Some(res) = residual(&norm, a) {
             if let Some(old) = by_res.get(&res) {
                 if *old != hv {
-                    return Some(format!("two states with the same residual formula {:?} hash differently", res));
+                    return Some(format!("two states with the same residual formula {:?} hash differently{}", res, tag));
                 }
             } else {
                 by_res.insert(res.clone(), hv.clone());
             }
             if let Some(old) = by_hash.get(&hv) {
                 if *old != res {
-                    return Some(format!("two states with different residual formulas {:?} / {:?} share one hash", old, res));
+                    return Some(format!("two states with different residual formulas {:?} / {:?} share one hash{}", old, res, tag));
                 }
             } else {
                 by_hash.insert(hv, res);
             }
+        }
         }
         None
     };
